@@ -67,6 +67,7 @@ type Term struct {
 	Ctx              context.Context
 	EnterSeq         int
 	EnterT           time.Duration
+	CtxDoneAtEntry   bool // the context was already done when OnPromote was entered
 	Exited           bool
 	ExitT            time.Duration
 	ExitedByTeardown bool
@@ -195,22 +196,32 @@ type WatchEv struct {
 	Ordinal int
 }
 
+// WatchClose: the store side closed a watcher's update channel (ActCloseWatch).
+type WatchClose struct {
+	Seq     int
+	T       time.Duration
+	Obj     int
+	Inst    int
+	WatchID int
+}
+
 type Trace struct {
-	Plan     *Plan
-	StartAt  time.Time
-	Ops      []*OpRec
-	Edges    []*Edge
-	CBs      []*CB
-	Terms    []*Term
-	Logs     []*LogRec
-	Mets     []*MetRec
-	APIs     []*APIRec
-	Snaps    []*Snap
-	Healths  []*HealthRec
-	Notifs   []*NotifRec
-	Dices    []*DiceRec
-	WatchEvs []*WatchEv
-	History  []*refkv.Version
+	Plan        *Plan
+	StartAt     time.Time
+	Ops         []*OpRec
+	Edges       []*Edge
+	CBs         []*CB
+	Terms       []*Term
+	Logs        []*LogRec
+	Mets        []*MetRec
+	APIs        []*APIRec
+	Snaps       []*Snap
+	Healths     []*HealthRec
+	Notifs      []*NotifRec
+	Dices       []*DiceRec
+	WatchEvs    []*WatchEv
+	WatchCloses []*WatchClose
+	History     []*refkv.Version
 
 	End                            time.Duration // virtual time when teardown began
 	TeardownEnd                    time.Duration
